@@ -34,7 +34,7 @@ EXPLANATION = ('C16: (paths) 1-3 segments from an alphabet of hostile and benign
 ASSUMPTIONS = ['a real temporary directory tree is created per run (removed at exit)',
                'reference semantics for ranges: RFC 7233 (valid and satisfiable -> 206 with exactly those bytes; otherwise 416 or the full file)']
 OUTSIDE = ['request paths as arbitrary character strings (posixpath.normpath is C code in 3.12: CrossHair degrades to sampling there); '
-           'bounded by the segment alphabet instead', 'symlinks inside the docroot', 'multipart/byteranges bodies are checked for status and type only']
+           'bounded by the segment alphabet instead', 'symlinks inside the docroot', 'coalescing of overlapping ranges in multipart/byteranges answers (each requested range is expected as its own part)']
 
 SEGMENTS = ['..', '.', '', '%2e%2e', '%252e%252e', '..%2f', '..\\', '%2f', 'sub', 'file.txt', 'secret.txt', 'docrootx', 'sibling.txt', 'inner.txt']
 M_PARENT = b'MARKER-PARENT-SECRET'
@@ -54,6 +54,10 @@ def tree():
             os.path.join(parent, 'secret.txt'): M_PARENT,
             os.path.join(parent, 'docrootx', 'sibling.txt'): M_SIBLING,
             os.path.join(parent, 'docrootx', 'secret.txt'): M_SIBLING + b'2',
+            # index documents of the directories outside the root
+            os.path.join(parent, 'index.html'): b'<html>' + M_PARENT + b'-INDEX</html>',
+            os.path.join(parent, 'docrootx', 'index.html'): b'<html>' + M_SIBLING + b'-INDEX</html>',
+            os.path.join(docroot, 'sub', 'index.html'): b'<html>IN-SUB-INDEX</html>',
             os.path.join(docroot, 'file.txt'): b'IN-FILE-0123456789',
             os.path.join(docroot, 'sub', 'inner.txt'): b'IN-INNER',
             os.path.join(docroot, 'sub', 'file.txt'): b'IN-SUB-FILE',
@@ -95,7 +99,8 @@ def make_paths_harness(n_segments):
         nseg = g.pick('nseg', list(range(1, n_segments + 1)))
         segs = [g.pick('seg%d' % i, SEGMENTS) for i in range(nseg)]
         path = (mount or '') + '/' + '/'.join(segs)
-        rig = Rig(ST.Static, {'path': mount, 'docroot': t['docroot']})
+        dirlisting = g.flag('dirlisting')
+        rig = Rig(ST.Static, {'path': mount, 'docroot': t['docroot'], 'dirlisting': dirlisting})
         sock = rig.new_sock()
         del _OPENED[:]
         _AUDIT['on'] = True
@@ -111,12 +116,17 @@ def make_paths_harness(n_segments):
         finally:
             _AUDIT['on'] = False
         out = rig.out(sock)
-        w = {'entry': entry, 'mount': mount or '/'}
+        w = {'entry': entry, 'mount': mount or '/', 'dirlisting': dirlisting}
         detail = 'path=%r entry=%s mount=%s out=%r exceptions=%s' % (path, entry, mount, out[:200], rig.exceptions[:1])
         g.note({'path': path, 'entry': entry, 'mount': mount or '/', 'status_line': out.split(b'\r\n')[0].decode('latin1') if out else None})
         outside_opened = [p for p in _OPENED if p.startswith(t['root']) and not inside(p, t['docroot'])]
         if M_PARENT in out or M_SIBLING in out:
             w['leak'] = 'parent' if M_PARENT in out else 'sibling'
+            g.fail('content-from-outside-docroot', w, detail)
+            raise PathEnd()
+        if b'<title>Index of' in out and any(b'>%s</a>' % n in out for n in (b'secret.txt', b'sibling.txt', b'docrootx/', b'docroot/')):
+            # a listing with entries that exist only outside the root
+            w['leak'] = 'listing'
             g.fail('content-from-outside-docroot', w, detail)
             raise PathEnd()
         if outside_opened:
@@ -152,7 +162,7 @@ def make_paths_harness(n_segments):
 
 RANGES = ['bytes=0-0', 'bytes=0-', 'bytes=-1', 'bytes=-0', 'bytes=5-2', 'bytes=0-100', 'bytes=100-', 'bytes=-100', 'bytes=', 'bytes=x-y',
           'bytes=2-4', 'bytes=9-9', 'bytes=10-12', 'bytes=0-0,2-3', 'bytes=0-5,3-8', 'bytes=-', 'bytes=1', 'lines=0-1', 'bytes=0-0,-1', 'bytes= 1 - 2 ',
-          'bytes=4-', 'bytes=-3', 'bytes=1-1,1-1']
+          'bytes=4-', 'bytes=-3', 'bytes=1-1,1-1', 'bytes=5-7,0-2', 'bytes=0-4,2-6', 'bytes=-3,0-2', 'bytes=0-2,6-8,3-5', 'bytes=0-1,2-3']
 
 
 def rfc_one(p, n):
@@ -239,6 +249,34 @@ def make_ranges_harness():
         elif r['status'] == 206:
             if kind[0] != 'multi':
                 g.fail('multipart-for-a-single-range', w, detail)
+            # every part carries exactly the bytes its own Content-range line announces
+            import re
+            mb = re.search(r'boundary=([^;\s]+)', hdr.get('content-type', ''))
+            if not mb:
+                g.fail('multipart-without-boundary', w, detail)
+                raise PathEnd()
+            delim = b'--' + mb.group(1).strip('"').encode()
+            pieces = r['body'].split(delim)
+            if len(pieces) < 3 or not pieces[-1].startswith(b'--'):
+                g.fail('multipart-malformed', w, detail)
+                raise PathEnd()
+            nparts = 0
+            for piece in pieces[1:-1]:
+                head, sep, body = piece.partition(b'\r\n\r\n')
+                m = re.search(rb'[Cc]ontent-[Rr]ange: bytes (\d+)-(\d+)/(\d+)', head)
+                if not sep or not m:
+                    g.fail('multipart-malformed', w, '%r; %s' % (piece[:60], detail))
+                    raise PathEnd()
+                a, b, total = int(m.group(1)), int(m.group(2)), int(m.group(3))
+                if body.endswith(b'\r\n'):
+                    body = body[:-2]
+                nparts += 1
+                if not (0 <= a <= b < n) or total != n:
+                    g.fail('range-beyond-file', w, 'part %d-%d/%d; %s' % (a, b, total, detail))
+                elif body != content[a:b + 1]:
+                    g.fail('range-body-mismatch', w, 'part %d-%d holds %r, the file has %r; %s' % (a, b, body, content[a:b + 1], detail))
+            if kind[0] == 'multi' and nparts != kind[1]:
+                g.fail('multipart-part-count', w, '%d parts, %d distinct satisfiable ranges requested; %s' % (nparts, kind[1], detail))
         elif r['status'] == 416:
             if kind[0] in ('ok', 'multi'):
                 g.fail('satisfiable-range-refused', w, detail)
@@ -329,7 +367,8 @@ def canaries():
     from harness.common import mutate
     return [
         ('no-containment-check', 'paths', lambda: mutate(ST.Static, '_on_request', 'if location != self.docroot and not location.startswith(self.docroot + os.sep):', 'if False:'), None),
-        ('guard-unquotes', 'paths', lambda: mutate(WH.HTTP, '_on_read', 'quote(path).encode(self._encoding) != _path', 'quote(__import__("urllib.parse").parse.unquote(path)).encode(self._encoding) != _path'), None),
+        ('multipart-seek-skipped', 'serve-ranges', lambda: mutate(WT, 'serve_file', 'bodyfile.seek(start)', 'pass'), ['range-body-mismatch']),
+        ('listing-outside-root', 'paths', lambda: mutate(ST.Static, '_on_request', 'directory = os.path.abspath(os.path.join(self.docroot, path))', "directory = os.path.abspath(os.path.join(self.docroot, path, '..'))"), None),
         ('range-stop-off-by-one', 'serve-ranges', lambda: mutate(WT, 'get_ranges', 'result.append((start, stop + 1))', 'result.append((start, stop))'), None),
     ]
 
